@@ -102,8 +102,8 @@ def tdDecide (w : Waiting) (acts : List Action) (T n k : Nat) (q : List Queued) 
     Except Crash (Waiting × List Queued × Option WAct) :=
   match tdPick acts n with
   | none => .error (.indexOOB "tap-dance actions")
-  | some a => .ok ({ tdNext w acts T n k (evictSameCoord w (n - 1) q).length with tap := a },
-                   evictSameCoord w (n - 1) q, some .tap)
+  | some a => .ok ({ tdNext w acts T n k (evictTaps w n q).length with tap := a },
+                   evictTaps w n q, some .tap)
 
 /-- the deadline tick: decided on the count recorded earlier -/
 theorem tickWtTd_deadline (w : Waiting) (acts : List Action) (T k : Nat) (q : List Queued)
@@ -148,9 +148,9 @@ structure Inv (w : Waiting) (acts : List Action) (T k : Nat) (q : List Queued) :
 
 theorem tdDecide_ok {w : Waiting} {acts : List Action} (hne : acts ≠ []) (T n k : Nat) (q : List Queued) :
     ∃ a, tdPick acts n = some a ∧ ∃ w', tdDecide w acts T n k q =
-      .ok (w', evictSameCoord w (n - 1) q, some .tap) ∧ w'.tap = a ∧ w'.coord = w.coord := by
+      .ok (w', evictTaps w n q, some .tap) ∧ w'.tap = a ∧ w'.coord = w.coord := by
   obtain ⟨a, ha, _⟩ := tdPick_some hne n
-  exact ⟨a, ha, { tdNext w acts T n k (evictSameCoord w (n - 1) q).length with tap := a },
+  exact ⟨a, ha, { tdNext w acts T n k (evictTaps w n q).length with tap := a },
     by unfold tdDecide; rw [ha], rfl, rfl⟩
 
 /-- **one tick of the waiting state refines one step of the abstract machine.**  `q` is the queue as
@@ -161,7 +161,7 @@ theorem tickWtTd_refines {w : Waiting} {acts : List Action} {T k : Nat} {q : Lis
     match specStep T acts.length k w.timeout (arrivalOf w (w.prevQueueLen == 255) b) with
     | .decided n =>
       ∃ a, tdPick acts n = some a ∧ ∃ w', tickWtTd (cd w) acts T k (q ++ b) =
-        .ok (w', evictSameCoord w (n - 1) (q ++ b), some .tap) ∧ w'.tap = a ∧ w'.coord = w.coord
+        .ok (w', evictTaps w n (q ++ b), some .tap) ∧ w'.tap = a ∧ w'.coord = w.coord
     | .pending k' rem' =>
       ∃ w', tickWtTd (cd w) acts T k (q ++ b) = .ok (w', q ++ b, none) ∧ w'.timeout = rem' ∧
         Inv w' acts T k' (q ++ b) ∧ w'.prevQueueLen ≠ 255 ∧ w'.coord = w.coord ∧ w'.tap = w.tap ∧
@@ -174,10 +174,10 @@ theorem tickWtTd_refines {w : Waiting} {acts : List Action} {T k : Nat} {q : Lis
   have hto : (cd w).timeout = w.timeout - 1 := rfl
   have hpq : (cd w).prevQueueLen = w.prevQueueLen := rfl
   have hdec : ∀ n, ∃ a, tdPick acts n = some a ∧ ∃ w', tdDecide (cd w) acts T n k (q ++ b) =
-      .ok (w', evictSameCoord w (n - 1) (q ++ b), some .tap) ∧ w'.tap = a ∧ w'.coord = w.coord := by
+      .ok (w', evictTaps w n (q ++ b), some .tap) ∧ w'.tap = a ∧ w'.coord = w.coord := by
     intro n
     obtain ⟨a, ha, w', h1, h2, h3⟩ := tdDecide_ok (w := cd w) hne T n k (q ++ b)
-    rw [evict_coord_congr hcd] at h1
+    rw [evictTaps_coord_congr hcd] at h1
     exact ⟨a, ha, w', h1, h2, h3.trans hcd⟩
   have hinv : ∀ n, n = seenTaps w (q ++ b) → interrupted w (q ++ b) = false →
       Inv (tdNext (cd w) acts T n k (q ++ b).length) acts T n (q ++ b) := by
@@ -287,7 +287,7 @@ theorem tdDrive_refines {acts : List Action} {T : Nat} (hne : acts ≠ []) :
       match specRun T acts.length k w.timeout (arrivals w (w.prevQueueLen == 255) bs) with
       | (t, .decided n) =>
         ∃ a, tdPick acts n = some a ∧ ∃ w', tdDrive w q bs =
-          .ok (t, w', evictSameCoord w (n - 1) (q ++ (bs.take t).flatten), some .tap) ∧ w'.tap = a ∧
+          .ok (t, w', evictTaps w n (q ++ (bs.take t).flatten), some .tap) ∧ w'.tap = a ∧
           w'.coord = w.coord
       | (t, .pending k' rem') =>
         ∃ w', tdDrive w q bs = .ok (t, w', q ++ bs.flatten, none) ∧ w'.timeout = rem' ∧
@@ -329,7 +329,7 @@ theorem tdDrive_refines {acts : List Action} {T : Nat} (hne : acts ≠ []) :
         simp only [] at ih ⊢
         obtain ⟨a, ha, w'', hw'', hta, hco'⟩ := ih
         refine ⟨a, ha, w'', ?_, hta, hco'.trans hco⟩
-        rw [hw'', evict_coord_congr hco]
+        rw [hw'', evictTaps_coord_congr hco]
         simp [List.append_assoc]
       | pending k'' rem'' =>
         simp only [] at ih ⊢
@@ -580,5 +580,28 @@ theorem tapBatches_length {w : Waiting} {T m g : Nat} {bs : List (List Queued)} 
   induction h with
   | nil => rfl
   | cons _ _ _ _ ih => simp [ih]; omega
+
+theorem take_len_succ {α} (b : α) (rest : List α) : ∀ (l : List α), (l ++ b :: rest).take (l.length + 1) = l ++ [b]
+  | [] => rfl
+  | x :: t => by simp only [List.cons_append, List.length_cons, List.take_succ_cons, take_len_succ b rest t]
+
+theorem quiet_no_press {b : List Queued} (h : QuietBatch b) (w : Waiting) : b.filter (isPr w) = [] := by
+  rw [List.filter_eq_nil_iff]
+  intro s hs hp
+  have := h s hs
+  rw [isPr_isPress hp] at this
+  cases this
+
+theorem quiets_no_press {bs : List (List Queued)} (h : ∀ b ∈ bs, QuietBatch b) (w : Waiting) :
+    bs.flatten.filter (isPr w) = [] := by
+  induction bs with
+  | nil => rfl
+  | cons b rest ih =>
+    rw [List.flatten_cons, List.filter_append, quiet_no_press (h b (by simp)) w,
+      ih (fun x hx => h x (by simp [hx]))]
+    rfl
+
+theorem drop_append_len {α} (a b : List α) (n : Nat) (h : a.length = n) : (a ++ b).drop n = b := by
+  subst h; simp
 
 end KVerif.C17
